@@ -55,8 +55,8 @@ def strat_alloc(draw, tier, ends_only=False):
     m["dead_links"] = []
     chips = pr.live_chips(m)
     names = sorted(m["resources"])
-    mincap = dict((r, min(pr.chip_capacity(m, c)[r] for c in chips))
-                  for r in names)
+    mincap = dict((r, min([pr.chip_capacity(m, c)[r] for c in chips] +
+                          [m["resources"][r]])) for r in names)
     reservations = []          # {"res", "start", "stop", "loc"}
     per_chip = dict((c, dict((r, []) for r in names)) for c in chips)
     same_caps = dict((r, len(set(pr.chip_capacity(m, c)[r]
